@@ -121,3 +121,58 @@ func roleFunc(P *ir.Program, name string) *ssa.Function {
 	}
 	return found
 }
+
+// The element type of a descent path ("pathEntry": a node and a position in it) and its two fields are unexported
+// names a refactoring may change; they are resolved by structure: the struct type of package mast with exactly one
+// *mastNode field and exactly one int field that is the element type of a slice-typed field of the exported Cursor.
+type pathNamesT struct{ typ, node, idx string }
+
+var pathNamesMemo = map[*ir.Program]pathNamesT{}
+
+func pathNames(P *ir.Program) pathNamesT {
+	if r, ok := pathNamesMemo[P]; ok {
+		return r
+	}
+	res := pathNamesT{"pathEntry", "node", "linkIndex"}
+	if mp := P.SPkgs[ir.MastPath]; mp != nil && mp.Pkg != nil {
+		if obj := mp.Pkg.Scope().Lookup("Cursor"); obj != nil {
+			if st, ok := obj.Type().Underlying().(*types.Struct); ok {
+				var found []pathNamesT
+				for i := 0; i < st.NumFields(); i++ {
+					sl, ok := st.Field(i).Type().Underlying().(*types.Slice)
+					if !ok {
+						continue
+					}
+					named, ok := types.Unalias(sl.Elem()).(*types.Named)
+					if !ok {
+						continue
+					}
+					es, ok := named.Underlying().(*types.Struct)
+					if !ok {
+						continue
+					}
+					var nodes, ints []string
+					for j := 0; j < es.NumFields(); j++ {
+						ft := es.Field(j).Type()
+						if isNodePtr(ft) {
+							nodes = append(nodes, es.Field(j).Name())
+						} else if b, ok := ft.Underlying().(*types.Basic); ok && b.Kind() == types.Int {
+							ints = append(ints, es.Field(j).Name())
+						}
+					}
+					if len(nodes) == 1 && len(ints) == 1 {
+						found = append(found, pathNamesT{named.Obj().Name(), nodes[0], ints[0]})
+					}
+				}
+				if len(found) == 1 {
+					res = found[0]
+				}
+			}
+		}
+	}
+	pathNamesMemo[P] = res
+	return res
+}
+
+// names of the two fields of a path entry in the program under analysis (set when its facts are built)
+var posFieldName, nodeFieldName = "linkIndex", "node"
